@@ -1,3 +1,102 @@
-From Coq Require Import ZArith List Bool Arith.
+(* C03 property theorems: statements only, each closed by `exact`, with Print Assumptions.
+   Vocabulary (Proofs1/3/4):  E n e u v = u<n /\ v<n /\ e u v = true;  reach n e = clos_refl_trans (E n e);
+   comm n e u v = reach both ways;  walk n e u v k = walk of length k inside 0..n-1;
+   is_period n e p = 0<p /\ forall D, (D | p) <-> D divides the length of every closed walk;
+   is_cyclic_proj n e p proj = proj has length n, values < p, and every edge u->v has proj v = (proj u + 1) mod p. *)
+From Coq Require Import ZArith List Bool Arith Relations.
 From QE Require Import C03.Model C03.Proofs.
 Import ListNotations.
+
+(* the Warshall closure is the reflexive-transitive closure of the edge relation *)
+Theorem C03_reach_correct : forall n e u v, u < n -> v < n ->
+  (reachb n e u v = true <-> clos_refl_trans nat (fun a b => a < n /\ b < n /\ e a b = true) u v).
+Proof. exact reach_correct. Qed.
+Print Assumptions C03_reach_correct.
+
+(* the reported classes are exactly the equivalence classes of mutual reachability (a partition of 0..n-1) *)
+Theorem C03_classes_partition : forall n e,
+  (forall u, u < n -> exists c, In c (scc_spec n e) /\ In u c) /\
+  (forall c, In c (scc_spec n e) -> c <> [] /\ forall u, In u c -> u < n) /\
+  (forall c u v, In c (scc_spec n e) -> In u c -> (In v c <-> v < n /\ comm n e u v)) /\
+  (forall c1 c2 u, In c1 (scc_spec n e) -> In c2 (scc_spec n e) -> In u c1 -> In u c2 -> c1 = c2).
+Proof.
+  intros n e. split; [exact (classes_cover n e)|]. split; [exact (classes_members n e)|].
+  split; [exact (classes_equiv n e) | exact (classes_disjoint n e)].
+Qed.
+Print Assumptions C03_classes_partition.
+
+(* a class is reported recurrent iff no edge leaves it *)
+Theorem C03_sink_closed : forall n e c,
+  In c (sink_spec n e) <-> In c (scc_spec n e) /\ (forall u v, In u c -> v < n -> e u v = true -> In v c).
+Proof. exact sink_spec_correct. Qed.
+Print Assumptions C03_sink_closed.
+
+(* _condensation_lil + _find_sink_scc, for any labelling: label k is a sink iff no edge leaves {proj = k} *)
+Theorem C03_sink_labels : forall n e num proj k,
+  In k (sink_scc_labels num proj (edges n e)) <->
+  k < num /\ forall u v, u < n -> v < n -> e u v = true -> nthn proj u = k -> nthn proj v = k.
+Proof. exact sink_scc_labels_spec. Qed.
+Print Assumptions C03_sink_labels.
+
+(* the repository logic on ANY valid component labelling (whatever numbering SciPy chooses) reports exactly
+   the specification's classes and recurrent classes, and is_strongly_connected/is_irreducible is correct *)
+Theorem C03_repo_classes : forall n e num proj, 0 < n ->
+  valid_labeling n (closure n e) num proj = true ->
+  (forall c, In c (scc_indices n num proj) <-> In c (scc_spec n e)) /\
+  (forall c, In c (sink_scc_indices n num proj (edges n e)) <-> In c (sink_spec n e)) /\
+  (num = 1 <-> forall u v, u < n -> v < n -> reach n e u v).
+Proof.
+  intros n e num proj Hn Hv. split; [exact (repo_scc_sets n e num proj Hn Hv)|].
+  split; [exact (repo_sink_sets n e num proj Hn Hv) | exact (repo_num_one n e num proj Hn Hv)].
+Qed.
+Print Assumptions C03_repo_classes.
+
+(* Jarvis-Shier: strongly connected graph, ANY level function that is the depth in a spanning tree rooted at 0
+   (a walk 0 -> v of length level v exists): the gcd over edges of level u - level v + 1 is the gcd of all
+   closed-walk lengths (D divides one iff it divides all the others) *)
+Theorem C03_period_is_gcd : forall n e (level : nat -> Z), 0 < n ->
+  (forall u v, u < n -> v < n -> reach n e u v) ->
+  (forall v, v < n -> (0 <= level v)%Z /\ walk n e 0 v (Z.to_nat (level v))) ->
+  forall D, (D | gcd_edges (edges n e) level)%Z <-> (forall u k, walk n e u u k -> (D | Z.of_nat k)%Z).
+Proof. exact jarvis_shier. Qed.
+Print Assumptions C03_period_is_gcd.
+
+(* _compute_period on ANY valid BFS output (order/predecessors forming a spanning tree rooted at 0): the period is
+   the gcd of the closed-walk lengths, and the cyclic projection sends every edge from class k to class k+1 mod period *)
+Theorem C03_compute_period_correct : forall n e pred order, 2 <= n ->
+  (forall u v, u < n -> v < n -> reach n e u v) ->
+  valid_tree n e order pred = true ->
+  exists per proj, compute_period n e true order pred = POk per proj /\
+    is_period n e per /\ is_cyclic_proj n e per proj.
+Proof. intros n e pred order H2 Hsc Hvt. exact (compute_period_correct n e pred H2 Hsc order Hvt). Qed.
+Print Assumptions C03_compute_period_correct.
+
+(* the specification-level period (own BFS, no SciPy input) is defined for every strongly connected graph and
+   is the gcd of the closed-walk lengths with the cyclic-class property *)
+Theorem C03_period_spec_correct : forall n e, 0 < n ->
+  (forall u v, u < n -> v < n -> reach n e u v) ->
+  (exists per proj, period_spec n e = Some (per, proj)) /\
+  (forall per proj, (exists u k, 0 < k /\ walk n e u u k) ->
+     period_spec n e = Some (per, proj) -> is_period n e per /\ is_cyclic_proj n e per proj).
+Proof.
+  intros n e Hn Hsc. split; [exact (period_spec_total n e Hn Hsc)|].
+  intros per proj Hc. exact (period_spec_correct n e Hn Hsc per proj Hc).
+Qed.
+Print Assumptions C03_period_spec_correct.
+
+(* hypotheses are satisfiable: a 6-cycle with a chord (period 2), SciPy-like BFS tree and labelling *)
+Definition ex_adj : list (list nat) := [[1]; [2]; [3; 5]; [4]; [5]; [0]].
+Example ex_valid_tree : valid_tree 6 (adj_edge ex_adj) [0; 1; 2; 3; 5; 4] [-9999; 0; 1; 2; 3; 2]%Z = true.
+Proof. vm_compute. reflexivity. Qed.
+Example ex_valid_labeling : valid_labeling 6 (closure 6 (adj_edge ex_adj)) 1 [0; 0; 0; 0; 0; 0] = true.
+Proof. vm_compute. reflexivity. Qed.
+Example ex_strongly_connected : forall u v, u < 6 -> v < 6 -> reach 6 (adj_edge ex_adj) u v.
+Proof. apply strongly_connectedb_spec. vm_compute. reflexivity. Qed.
+Example ex_period : compute_period 6 (adj_edge ex_adj) true [0; 1; 2; 3; 5; 4] [-9999; 0; 1; 2; 3; 2]%Z = POk 2 [0; 1; 0; 1; 0; 1]
+                    /\ period_spec 6 (adj_edge ex_adj) = Some (2, [0; 1; 0; 1; 0; 1]).
+Proof. vm_compute. split; reflexivity. Qed.
+(* a reducible example: transient class {0} feeding the recurrent classes {1,2} and {3} *)
+Example ex_reducible : valid_labeling 4 (closure 4 (adj_edge [[1; 3]; [2]; [1]; [3]])) 3 [2; 1; 1; 0] = true
+  /\ sink_scc_indices 4 3 [2; 1; 1; 0] (edges 4 (adj_edge [[1; 3]; [2]; [1]; [3]])) = [[3]; [1; 2]]
+  /\ sink_spec 4 (adj_edge [[1; 3]; [2]; [1]; [3]]) = [[1; 2]; [3]].
+Proof. vm_compute. repeat split; reflexivity. Qed.
